@@ -65,6 +65,24 @@ static ACTIVE: Mutex<Option<Arc<Inner>>> = Mutex::new(None);
 /// (worker, call, mutating, return value, errno) of every call under the root made by workers (filled in the Post phase).
 pub static EVENT_LOG: Mutex<Vec<(usize, String, bool, i64, i32)>> = Mutex::new(Vec::new());
 
+/// Fault x schedule programs: the k-th mutating filesystem call made by worker `thread` fails with EIO (once).
+/// `fired` = (logical clock at the moment of the failure, text of the failed call).
+pub struct FaultSpec {
+    pub thread: usize,
+    pub k: u64,
+    pub seen: u64,
+    pub fired: Option<(u64, String)>,
+}
+pub static FAULT: Mutex<Option<FaultSpec>> = Mutex::new(None);
+
+pub fn set_fault(spec: Option<(usize, u64)>) {
+    *FAULT.lock().unwrap() = spec.map(|(thread, k)| FaultSpec { thread, k, seen: 0, fired: None });
+}
+
+pub fn take_fault_fired() -> Option<(u64, String)> {
+    FAULT.lock().unwrap().take().and_then(|f| f.fired)
+}
+
 fn active() -> Option<Arc<Inner>> {
     let mine = MINE.with(|m| m.borrow().clone())?;
     let cur = ACTIVE.lock().unwrap().clone()?;
@@ -325,6 +343,20 @@ pub fn run_schedule(root: &std::path::Path, bodies: Vec<Body>, prefix: &[usize],
                 Phase::Pre => {
                     if visible(ev) {
                         yield_here(format!("fs:{}", canon_label(&ev.show())), None);
+                    }
+                    if ev.mutating {
+                        if let Some(id) = WORKER.with(|w| w.get()) {
+                            let mut f = FAULT.lock().unwrap();
+                            if let Some(f) = f.as_mut() {
+                                if f.thread == id && f.fired.is_none() {
+                                    f.seen += 1;
+                                    if f.seen == f.k {
+                                        f.fired = Some((tick(), canon_label(&ev.show())));
+                                        return libc::EIO;
+                                    }
+                                }
+                            }
+                        }
                     }
                 }
                 Phase::Post { ret, err } => {
